@@ -31,7 +31,7 @@ Definition expired_at (p : params) (r : rate_entry) (h : Z) : Prop := r_created 
     panics or wraps; see README "outside the domain") *)
 Definition SAFE_RATE : Z := 2 ^ 255 * PREC.
 Definition domain (p : params) (st : state) (h : Z) : bool :=
-  in_range (threshold_raw p (bonded_power st)) &&
+  threshold_ok p (bonded_power st) &&
   forallb (fun a => forallb (fun t => Z.abs (snd t) <=? SAFE_RATE) (a_tuples a)) (votes st) &&
   forallb (fun r => (0 <=? r_created r) && (r_created r + p_expiration p <? UINT64)) (rates st) &&
   (0 <=? p_expiration p) && (0 <=? p_reward_band p) && (p_reward_band p <=? PREC).
